@@ -15,9 +15,15 @@ Open Scope Z_scope.
       3 get_motif_scores(rows, PWM(cols))  out = integer scores per row            (w = |cols|)
       4 count_kmers(rows, w)               out = [counts];  k_labels = the counts' labels
       5 count_kmers(rows, w, axis=-1)      out = counts per row; k_labels likewise
-      6 KmerEncoding(enc, w): for every window of every row (in order)  out row = encode(text) :: to_string(that code) *)
+      6 KmerEncoding(enc, w): for every window of every row (in order)  out row = encode(text) :: to_string(that code)
+      7 get_motif_scores(rows, PWM.from_counts(..)) with a REAL-valued matrix, compared with a tolerance:
+        k_cols = round(matrix * 2^20), out = round(scores * 2^20), tolerance w + 1 units (labelled float test)
+   k_kind: 0 = a ragged collection (fresh array, non-contiguous view, or one sequence as a 1-d array);
+           2 = equal-length sequences as a dense 2-d EncodedArray with the alphabet encoding;
+           3 = the same, un-encoded (ASCII) *)
 Record case := {
   k_op : Z;
+  k_kind : Z;
   k_alpha : list Z;                 (* the alphabet's letters (bytes); its length is |A| *)
   k_rows : list (list Z);           (* the sequences as letter codes 0..|A|-1 *)
   k_w : Z;                          (* window length (for op 1: the minimizer window) *)
@@ -34,16 +40,33 @@ Definition wn (c : case) : nat := Z.to_nat (k_w c).
 (* input inside the property's quantifier: an alphabet of distinct letters, letters in range, 1 <= w, total letters >= w, |A|^w < 2^63 *)
 Fixpoint nodupb (l : list Z) : bool :=
   match l with [] => true | x :: r => negb (existsb (Z.eqb x) r) && nodupb r end.
+(* a dense 2-d input has rows of one length *)
+Definition kind_ok (c : case) : bool :=
+  (k_kind c =? 0)
+  || (((k_kind c =? 2) || (k_kind c =? 3))
+      && match k_rows c with [] => false | r :: rs => forallb (fun r' => len r' =? len r) rs end).
+(* the rows the library actually works on, for the two routes that lose the row structure of a dense input *)
+Definition motif_rows (c : case) : list (list Z) :=
+  if k_kind c =? 0 then k_rows c else motif_dense_rows (k_rows c).
+Definition kmers_rows (c : case) : list (list Z) :=
+  if k_kind c =? 3 then kmers_unencoded_dense_rows (k_rows c) else k_rows c.
+(* same shape and every entry within tol *)
+Definition rows_close (tol : Z) (a b : list (list Z)) : bool :=
+  (len a =? len b)
+  && all_true (map (fun '(x, y) => (len x =? len y)
+                                   && all_true (map (fun '(u, v) => Z.abs (u - v) <=? tol) (combine x y)))
+                   (combine a b)).
 Definition in_domain (c : case) : bool :=
   (2 <=? nA c) && nodupb (k_alpha c) && forallb (forallb (fun x => (0 <=? x) && (x <? nA c))) (k_rows c)
   && (1 <=? k_k c) && (k_k c <=? k_w c) && (k_w c <=? 31) && (k_w c <=? len (concat (k_rows c)))
   && (nA c ^ k_k c <? 2 ^ 63)
   && match k_op c with
      | 2 => len (k_pat c) =? k_w c
-     | 3 => (len (k_cols c) =? k_w c) && forallb (fun col => len col =? nA c) (k_cols c)
+     | 3 | 7 => (len (k_cols c) =? k_w c) && forallb (fun col => len col =? nA c) (k_cols c)
      | 1 => true
      | _ => k_k c =? k_w c
-     end.
+     end
+  && kind_ok c.
 
 Definition all_windows (c : case) : list (list Z) := concat (map (windows (wn c)) (k_rows c)).
 (* a label is right when it has k letters of the alphabet whose little-endian value is its index *)
@@ -67,20 +90,21 @@ Definition spec_ok (c : case) : bool :=
   | 4 => zll_eqb (k_out c) [bincount (nA c ^ k_w c) (concat (spec_kmers (nA c) (wn c) (k_rows c)))] && labels_ok c
   | 5 => zll_eqb (k_out c) (map (bincount (nA c ^ k_w c)) (spec_kmers (nA c) (wn c) (k_rows c))) && labels_ok c
   | 6 => zll_eqb (k_out c) (map (fun win => le_value (nA c) win :: text_of (k_alpha c) win) (all_windows c))
+  | 7 => rows_close (k_w c + 1) (k_out c) (spec_motif (k_cols c) (k_rows c))
   | _ => false
   end.
 
 Definition model_ok (c : case) : bool :=
   let n := nA c in
   match k_op c with
-  | 0 => negb (k_err c) && zll_eqb (k_out c) (get_kmers n (k_w c) (k_rows c))
-         && zll_eqb (k_labels c) (map (to_string (k_alpha c) n (k_w c)) (concat (get_kmers n (k_w c) (k_rows c))))
+  | 0 => negb (k_err c) && zll_eqb (k_out c) (get_kmers n (k_w c) (kmers_rows c))
+         && zll_eqb (k_labels c) (map (to_string (k_alpha c) n (k_w c)) (concat (get_kmers n (k_w c) (kmers_rows c))))
   | 1 => match get_minimizers n (k_k c) (k_w c) (k_rows c) with
          | None => k_err c
          | Some m => negb (k_err c) && zll_eqb (k_out c) m
          end
   | 2 => negb (k_err c) && zll_eqb (k_out c) (match_string (k_pat c) (k_rows c))
-  | 3 => negb (k_err c) && zll_eqb (k_out c) (get_motif_scores (k_cols c) (k_rows c))
+  | 3 => negb (k_err c) && zll_eqb (k_out c) (get_motif_scores (k_cols c) (motif_rows c))
   | 4 => negb (k_err c) && zll_eqb (k_out c) [count_kmers_flat n (k_w c) (k_rows c)]
          && zll_eqb (k_labels c) (labels (k_alpha c) n (k_w c))
   | 5 => negb (k_err c) && zll_eqb (k_out c) (count_kmers_rows n (k_w c) (k_rows c))
@@ -88,5 +112,6 @@ Definition model_ok (c : case) : bool :=
   | 6 => negb (k_err c)
          && zll_eqb (k_out c) (map (fun win => let h := encode_kmer n (k_w c) win in
                                                h :: to_string (k_alpha c) n (k_w c) h) (all_windows c))
+  | 7 => negb (k_err c) && rows_close (k_w c + 1) (k_out c) (get_motif_scores (k_cols c) (motif_rows c))
   | _ => false
   end.
